@@ -1498,14 +1498,15 @@ func c06Check(c *c06Case, e *c06Env, s string, cache map[string]*regexp.Regexp) 
 
 	classify := func(d *kit.Discrepancy) *kit.Discrepancy {
 		d.Detail = fmt.Sprintf("query string %q via %s: %s", s, map[bool]string{true: "dir", false: "shard"}[viaDir], d.Detail)
-		if hasFilematch {
+		if hasFilematch && d.Known == "" {
 			// Known finding: type:filematch (documented as the default) panics in
 			// newMatchTree; inside a type:repo group the crash is swallowed by
 			// List and shows up as a wrong result. Recognised iff the string
 			// with type:file in place of each type:filematch (same selection
 			// of documents) is handled correctly.
 			if s2 := c06FilematchRE.ReplaceAllString(s, "$1$2:file$3"); s2 != s {
-				if r2 := c06Check(c, e, s2, cache); r2.compared && r2.discrepant == nil {
+				// (s2 may still hit one of the other known findings)
+				if r2 := c06Check(c, e, s2, cache); r2.compared && (r2.discrepant == nil || r2.discrepant.Known != "") {
 					d.Known = "C06-type-filematch-panic"
 				}
 			}
@@ -1541,8 +1542,8 @@ func c06Check(c *c06Case, e *c06Env, s string, cache map[string]*regexp.Regexp) 
 	}
 	if !c06SameSet(cmpWant, cmpGot) {
 		missing, extra := c06Diff(cmpWant, cmpGot)
-		d := classify(kit.Fail("docset", "parsed as %v; %s missing %q extra %q", q, what, missing, extra))
-		if !hasFilematch {
+		d := kit.Fail("docset", "parsed as %v; %s missing %q extra %q", q, what, missing, extra)
+		{
 			for _, a := range o.alts {
 				set := a.set
 				if topRepo {
@@ -1553,6 +1554,11 @@ func c06Check(c *c06Case, e *c06Env, s string, cache map[string]*regexp.Regexp) 
 					break
 				}
 			}
+		}
+		if d.Known == "" {
+			d = classify(d)
+		} else {
+			d.Detail = fmt.Sprintf("query string %q: %s", s, d.Detail)
 		}
 		r.discrepant = d
 		return r
